@@ -1,5 +1,6 @@
 import RtcVerif.Model.Wire
 import RtcVerif.Model.C20BSpline
+import RtcVerif.Model.C20Fit
 /-! Line-protocol driver for the C20 models (B-spline evaluation, inverse lookup, fit cache). -/
 open Lean RtcVerif RtcVerif.Wire RtcVerif.C20
 
@@ -52,6 +53,26 @@ def optNatJ : Option Nat → Json
 def handle (j : Json) : Option Json := do
   let op ← getStr j "op"
   match op with
+  | "fitsetup" =>
+      -- knot vector and constraint-row bounds `BSpline1D.fit` hands to the solver
+      let x ← getRatList j "x"
+      let k ← getNat j "k"
+      let δ ← getRat j "delta"
+      let ε ← getRat j "eps"
+      let mono ← getInt j "mono"
+      let curv ← getInt j "curv"
+      let interior := match getObj j "interior" with
+        | some (Json.null) => none
+        | some v => asRatList v
+        | none => none
+      if x.length < k + 1 then none else
+      let b := fitBounds mono curv ε
+      let ev : EVal → Json := fun
+        | .ninf => Json.str "-inf"
+        | .pinf => Json.str "inf"
+        | .fin q => ratJ q
+      pure (Json.mkObj [("t", ratsJ (fitKnots x k δ interior)),
+        ("dcMin", ev b.dcMin), ("dcMax", ev b.dcMax), ("ssMin", ev b.ssMin), ("ssMax", ev b.ssMax)])
   | "b1" =>
       let t ← getRatList j "t"
       let w ← getRatList j "w"
